@@ -561,6 +561,7 @@ func (w *world) run(cond func() bool, deadline time.Duration) stopReason {
 		}
 		if n > 0 {
 			// rotate so that index 0 is the task that ran last (if enabled)
+			continued := false
 			if s.last != nil {
 				for i, t := range en {
 					if t == s.last {
@@ -568,11 +569,18 @@ func (w *world) run(cond func() bool, deadline time.Duration) stopReason {
 						// keep the rest sorted
 						rest := en[1:]
 						sort.Slice(rest, func(a, b int) bool { return rest[a].name < rest[b].name })
+						continued = true
 						break
 					}
 				}
 			}
-			k := s.sched.biased(n, w.cfg.SwitchPPM)
+			var k int
+			if continued || w.cfg.SwitchPPM == 0 {
+				k = s.sched.biased(n, w.cfg.SwitchPPM)
+			} else {
+				// the task that ran last cannot go on: nothing favours the candidate that happens to sort first
+				k = s.sched.intn(n)
+			}
 			if k < len(en) {
 				s.releaseTask(en[k])
 			} else {
